@@ -6,9 +6,11 @@ From M Require UnitProgress.
 From M Require UnitGeom.
 From M Require Fuel.
 From M Require ExprCap.
+From M Require InputInv.
 From M Require Dispatch.
 From M Require ExprModel.
 From M Require Framing2.
+From M Require Fuel.
 From M Require LexBounds.
 From M Require LexModel.
 From M Require ParserModel.
@@ -196,4 +198,24 @@ Theorem C01_chanlist_entry_cap :
 Proof. exact (@ExprCap.chanlist_entry_cap). Qed.
 End T_chanlist_entry_cap.
 Definition C01_chanlist_entry_cap := @T_chanlist_entry_cap.C01_chanlist_entry_cap.
+
+Module T_input_buffer_inv. Import InputInv. Local Open Scope bool_scope. Local Open Scope Z_scope.
+Import ParserModel Framing2 Dispatch Fuel. Local Open Scope Z_scope.
+Theorem C01_input_buffer_inv :
+  forall c data d,
+  buffer_ok c ->
+  buffer_ok (scpi_input c data d) /\ cap (scpi_input c data d) = cap c.
+Proof. exact (@InputInv.input_buffer_inv). Qed.
+End T_input_buffer_inv.
+Definition C01_input_buffer_inv := @T_input_buffer_inv.C01_input_buffer_inv.
+
+Module T_input_buffer_inv_history. Import InputInv. Local Open Scope bool_scope. Local Open Scope Z_scope.
+Import ParserModel Framing2 Dispatch Fuel. Local Open Scope Z_scope.
+Theorem C01_input_buffer_inv_history :
+  forall chunks d,
+  forall c, buffer_ok c ->
+  buffer_ok (fold_left (fun c x => scpi_input c x d) chunks c).
+Proof. exact (@InputInv.input_buffer_inv_history). Qed.
+End T_input_buffer_inv_history.
+Definition C01_input_buffer_inv_history := @T_input_buffer_inv_history.C01_input_buffer_inv_history.
 
